@@ -34,7 +34,7 @@ ASSUMPTIONS = [
 CRYSTALS = ['FCC', 'BCC', 'HCP', 'DIAMOND', 'OMEGA', 'B2AB', 'WURTZ2', 'P1', 'RHOM', 'HONEY', 'RECTM', 'SQ2MM', 'AFM', 'UUDD']
 # noise letters (index -> signed amplitude): +-3e-10 (DESIGN 5.1) and one larger value that is still below the 1e-8
 # threshold but above threshold/det, which the threshold rescaling inside reduce() has to absorb
-NOISES = [3e-10, -3e-10, 4e-9]
+NOISES = [3e-10, -3e-10, 4e-9, 'all4.5e-9']    # last: +4.5e-9 on EVERY copy of one primitive atom (one coordinate)
 # independent reference for the primitive descriptions: atoms per species and the order of the space group modulo
 # lattice translations (Fm-3m, Im-3m, P6_3/mmc, Fd-3m, P6/mmm, Pm-3m, P6_3mc, P-1, R-3m, p6mm, p2mm, p4mm; the two
 # spin crystals: Pm-3m and Pmmm doubled by the translation that flips all spins).  Fixed numbers, so that a defect of
@@ -117,7 +117,15 @@ def describe(prim, S, ir, order, noise):
     if spins is not None: spins = [reorder(s, order) for s in spins]
     if noise is not None:
         c, a, k, ni = noise
-        basis[c][a] = basis[c][a].copy(); basis[c][a][k] += NOISES[ni]
+        if isinstance(NOISES[ni], str):
+            # every copy of primitive atom a is displaced by the same 4.5e-9 (below the threshold): in the reduced cell that is
+            # det x 4.5e-9 relative to the other atoms, which only the rescaled threshold of reduce() absorbs
+            nprim = len(prim.basis[c])
+            basis[c] = [u.copy() for u in basis[c]]
+            for n, u in enumerate(basis[c]):
+                if n % nprim == a % nprim: u[k] += 4.5e-9
+        else:
+            basis[c][a] = basis[c][a].copy(); basis[c][a][k] += NOISES[ni]
     return L, basis, spins
 
 
@@ -161,6 +169,7 @@ def variants(prim, S, tier):
         for a in range(lim):
             for k in range(dim):
                 for ni in range(len(NOISES)):
+                    if isinstance(NOISES[ni], str) and (a >= len(atoms) or len(atoms) < 2): continue     # one pattern per primitive atom
                     yield 0, 'id', (c, a, k, ni)
 
 
@@ -190,7 +199,7 @@ def evaluate(case):
             fails, res = check_one(prim, ref, S, ir, order, noise)
             outcomes.add('{}:{}'.format(case['name'], res))
             for orc, det in fails:
-                nz = 'none' if noise is None else 'sp{}:atom{}:x{}:{:+g}'.format(noise[0], noise[1], noise[2], NOISES[noise[3]])
+                nz = 'none' if noise is None else 'sp{}:atom{}:x{}:{}'.format(noise[0], noise[1], noise[2], NOISES[noise[3]] if isinstance(NOISES[noise[3]], str) else '{:+g}'.format(NOISES[noise[3]]))
                 kind = re.sub(r'[-+]?\d+(\.\d+)?', '#', det)[:60]
                 key = '{}:{}:rebase{}:order={}:noise={}|{}'.format(case['name'], sname, ir, order, nz, kind if orc == 'exception' else '')
                 cls = (orc, kind)          # per case: the simplest input of every (oracle, kind of failure)
